@@ -105,6 +105,17 @@ def build(template_path, out_path, canary=False, repo=None, mutate=None):
                     raise LostAnchor(f"require_text: {m.group(1)} no longer contains {lit[:60]!r}")
                 i += 1
                 continue
+            if s.startswith("//@ frame_no_mention "):
+                # frame condition by token scan: the item must not mention the identifier at all (then it cannot write it)
+                m = re.match(r"//@ frame_no_mention (\S+) :: (.*?) :: (\w+)$", s)
+                sf0 = source(m.group(1))
+                from .rustlex import lex as _lex
+                txt0 = sf0.text(sf0.find(m.group(2).strip()))
+                if any(t.text == m.group(3) for t in _lex(txt0)):
+                    raise LostAnchor(f"frame_no_mention: {m.group(2).strip()} now mentions `{m.group(3)}` (the assumed frame is no longer backed by the scan)")
+                norm_log.append(f"frame by token scan: {m.group(2).strip()} does not mention `{m.group(3)}`")
+                i += 1
+                continue
             if s.startswith("//@ n13_def "):
                 # the definition that rule N13 inlines: cut from the repository on this run
                 m = re.match(r"//@ n13_def (\S+) :: (.*)$", s)
